@@ -67,7 +67,17 @@ static void rbh_putcps(const unsigned char *s, size_t n)
   }
 }
 
-/* ---- pens ---- */
+/* ---- pens ----
+ * spec / print syntax: a sequence of  <letter><decimal>  in the fixed order
+ *   f b (colours, optionally followed by #rrggbb = the RGB8 secondary) B(old) u(nder) i(talic)
+ *   r(everse) s(trike) a(ltfont) k(blink) z(sizepos);   "-" = empty pen, "null" = NULL, "~" printed for NULL */
+static const struct { char c; TickitPenAttr a; } rbh_pattr[] = {
+  { 'f', TICKIT_PEN_FG }, { 'b', TICKIT_PEN_BG }, { 'B', TICKIT_PEN_BOLD }, { 'u', TICKIT_PEN_UNDER },
+  { 'i', TICKIT_PEN_ITALIC }, { 'r', TICKIT_PEN_REVERSE }, { 's', TICKIT_PEN_STRIKE }, { 'a', TICKIT_PEN_ALTFONT },
+  { 'k', TICKIT_PEN_BLINK }, { 'z', TICKIT_PEN_SIZEPOS },
+};
+#define RBH_NPATTR ((int)(sizeof rbh_pattr / sizeof rbh_pattr[0]))
+
 static TickitPen *rbh_pen(const char *spec)
 {
   if(strcmp(spec, "null") == 0) return NULL;
@@ -75,15 +85,41 @@ static TickitPen *rbh_pen(const char *spec)
   if(strcmp(spec, "-") == 0) return pen;
   const char *p = spec;
   while(*p) {
-    char a = *p++; char *e; long v = strtol(p, &e, 10); p = e;
-    switch(a) {
-      case 'f': tickit_pen_set_colour_attr(pen, TICKIT_PEN_FG, v); break;
-      case 'b': tickit_pen_set_colour_attr(pen, TICKIT_PEN_BG, v); break;
-      case 'B': tickit_pen_set_bool_attr(pen, TICKIT_PEN_BOLD, v); break;
-      case 'u': tickit_pen_set_int_attr(pen, TICKIT_PEN_UNDER, v); break;
+    char c = *p++; char *e; long v = strtol(p, &e, 10); p = e;
+    TickitPenAttr a = 0;
+    for(int i = 0; i < RBH_NPATTR; i++) if(rbh_pattr[i].c == c) a = rbh_pattr[i].a;
+    if(!a) break;
+    switch(tickit_penattr_type(a)) {
+      case TICKIT_PENTYPE_BOOL:   tickit_pen_set_bool_attr(pen, a, v != 0); break;
+      case TICKIT_PENTYPE_INT:    tickit_pen_set_int_attr(pen, a, v); break;
+      case TICKIT_PENTYPE_COLOUR:
+        tickit_pen_set_colour_attr(pen, a, v);
+        if(*p == '#') {
+          unsigned r, g, bl;
+          if(sscanf(p + 1, "%2x%2x%2x", &r, &g, &bl) == 3)
+            tickit_pen_set_colour_attr_rgb8(pen, a, (TickitPenRGB8){ .r = r, .g = g, .b = bl });
+          p += 7;
+        }
+        break;
     }
   }
   return pen;
+}
+
+static void rbh_putattr(const TickitPen *pen, int i)
+{
+  TickitPenAttr a = rbh_pattr[i].a;
+  switch(tickit_penattr_type(a)) {
+    case TICKIT_PENTYPE_BOOL:   printf("%c%d", rbh_pattr[i].c, tickit_pen_get_bool_attr(pen, a) ? 1 : 0); break;
+    case TICKIT_PENTYPE_INT:    printf("%c%d", rbh_pattr[i].c, tickit_pen_get_int_attr(pen, a)); break;
+    case TICKIT_PENTYPE_COLOUR:
+      printf("%c%d", rbh_pattr[i].c, tickit_pen_get_colour_attr(pen, a));
+      if(tickit_pen_has_colour_attr_rgb8(pen, a)) {
+        TickitPenRGB8 c = tickit_pen_get_colour_attr_rgb8(pen, a);
+        printf("#%02x%02x%02x", c.r, c.g, c.b);
+      }
+      break;
+  }
 }
 
 /* exact has/value form */
@@ -91,15 +127,8 @@ static void rbh_putpen(const TickitPen *pen)
 {
   if(!pen) { putchar('~'); return; }
   int any = 0;
-  if(tickit_pen_has_attr(pen, TICKIT_PEN_FG)) { printf("f%d", tickit_pen_get_colour_attr(pen, TICKIT_PEN_FG)); any = 1; }
-  if(tickit_pen_has_attr(pen, TICKIT_PEN_BG)) { printf("b%d", tickit_pen_get_colour_attr(pen, TICKIT_PEN_BG)); any = 1; }
-  if(tickit_pen_has_attr(pen, TICKIT_PEN_BOLD)) { printf("B%d", tickit_pen_get_bool_attr(pen, TICKIT_PEN_BOLD) ? 1 : 0); any = 1; }
-  if(tickit_pen_has_attr(pen, TICKIT_PEN_UNDER)) { printf("u%d", tickit_pen_get_int_attr(pen, TICKIT_PEN_UNDER)); any = 1; }
-  /* an attribute outside the modelled four would be a harness error: make it visible */
-  for(TickitPenAttr a = 1; a < TICKIT_N_PEN_ATTRS; a++)
-    if(a != TICKIT_PEN_FG && a != TICKIT_PEN_BG && a != TICKIT_PEN_BOLD && a != TICKIT_PEN_UNDER && tickit_pen_has_attr(pen, a)) {
-      printf("?%d", (int)a); any = 1;
-    }
+  for(int i = 0; i < RBH_NPATTR; i++)
+    if(tickit_pen_has_attr(pen, rbh_pattr[i].a)) { rbh_putattr(pen, i); any = 1; }
   if(!any) putchar('-');
 }
 
@@ -202,8 +231,8 @@ static void rbh_dump(RbhBuf *b)
 /* ---- flushing (C04) ---- */
 static void rbh_putpen_canon(const TickitPen *pen)
 {
-  printf("f%db%dB%du%d", tickit_pen_get_colour_attr(pen, TICKIT_PEN_FG), tickit_pen_get_colour_attr(pen, TICKIT_PEN_BG),
-         tickit_pen_get_bool_attr(pen, TICKIT_PEN_BOLD) ? 1 : 0, tickit_pen_get_int_attr(pen, TICKIT_PEN_UNDER));
+  /* every attribute as the getters report it (defaults for absent ones) */
+  for(int i = 0; i < RBH_NPATTR; i++) rbh_putattr(pen, i);
 }
 
 /* the mock driver with an erasech whose MAYBE leaves the cursor in place (as xterm's ECH does) */
@@ -291,6 +320,61 @@ static void rbh_flush_mock(TickitRenderBuffer *rb, int tl, int tc, int gl, int g
       rbh_putpen_canon(tickit_mockterm_get_display_pen(mt, l, c));
     }
   }
+  printf("}");
+  tickit_mockterm_destroy(mt);
+}
+
+/* the sentinel pattern on a fresh mock terminal */
+static void rbh_sentinel(TickitTerm *tt, int tl, int tc)
+{
+  for(int l = 0; l < tl; l++) {
+    tickit_term_goto(tt, l, 0);
+    for(int c = 0; c < tc; c++) {
+      TickitPen *sp = tickit_pen_new();
+      tickit_pen_set_colour_attr(sp, TICKIT_PEN_FG, 16 + (l + 2 * c) % 5);
+      tickit_term_setpen(tt, sp);
+      tickit_pen_unref(sp);
+      char ch[2] = { 'a' + (l * 7 + c * 3) % 26, 0 };
+      tickit_term_print(tt, ch);
+    }
+  }
+}
+
+static void rbh_putgrid(TickitMockTerm *mt, int tl, int tc)
+{
+  for(int l = 0; l < tl; l++) {
+    if(l) putchar('/');
+    for(int c = 0; c < tc; c++) {
+      if(c) putchar(',');
+      size_t need = tickit_mockterm_get_display_text(mt, NULL, 0, l, c, 1);
+      char *buf = malloc(need + 1);
+      tickit_mockterm_get_display_text(mt, buf, need + 1, l, c, 1);
+      rbh_putcps((unsigned char *)buf, need);
+      free(buf);
+      putchar(':');
+      rbh_putpen_canon(tickit_mockterm_get_display_pen(mt, l, c));
+    }
+  }
+}
+
+/* tp tl tc gl gc text: print `text` (exact length, no NUL appended) on a tl x tc mock terminal
+ * showing the sentinel pattern with its cursor at (gl, gc), through the mock driver's own print
+ * (no validity wrapper); prints P{cursor line.col}{final grid} */
+static void rbh_term_print(int tl, int tc, int gl, int gc, const char *textspec)
+{
+  TickitMockTerm *mt = tickit_mockterm_new(tl, tc);
+  TickitTerm *tt = (TickitTerm *)mt;
+  rbh_sentinel(tt, tl, tc);
+  tickit_term_goto(tt, gl, gc);
+  TickitPen *prior = tickit_pen_new();
+  tickit_term_setpen(tt, prior);
+  tickit_pen_unref(prior);
+  size_t len; char *b = rbh_text(textspec, &len, NULL, false);
+  tickit_term_printn(tt, b, len);
+  free(b);
+  MockTermDriver *mtd = (MockTermDriver *)tickit_term_get_driver(tt);
+  printf("P{%d.%d}{", mtd->line, mtd->col);
+  rbh_putgrid(mt, tl, tc);
   printf("}");
   tickit_mockterm_destroy(mt);
 }
@@ -417,6 +501,7 @@ static void rbh_run_case(void)
     else if(!strcmp(kw, "fl")) { rbh_tok(); rbh_flush_mock(rb, ARG(0), ARG(1), ARG(2), ARG(3), vh_tok[p + 4], 1); p += 5; }
     else if(!strcmp(kw, "flm")) { rbh_tok(); rbh_flush_mock(rb, ARG(0), ARG(1), ARG(2), ARG(3), vh_tok[p + 4], 0); p += 5; }
     else if(!strcmp(kw, "flx")) { rbh_tok(); rbh_flush_xterm(rb, ARG(0), ARG(1)); p += 2; }
+    else if(!strcmp(kw, "tp")) { rbh_tok(); rbh_term_print(ARG(0), ARG(1), ARG(2), ARG(3), vh_tok[p + 4]); p += 5; }
     else if(!strcmp(kw, "lct")) {
       rbh_tok(); printf("L{");
       for(int i = 0; i < 256; i++) printf(i ? ".%x" : "%x", (unsigned)linemask_to_char[i]);
